@@ -77,14 +77,14 @@ func c10(o Opts) error {
 		return workerMain(o.Seed, o.Tier)
 	}
 	res := NewResult("C10")
-	ngb, njoin, nmodel := 120, 100, 150
+	ngb, njoin, nmodel, nscale := 100, 80, 120, 5
 	if o.Tier == "thorough" {
-		ngb, njoin, nmodel = 1500, 1200, 800
+		ngb, njoin, nmodel, nscale = 1500, 1200, 800, 80
 	}
 	if s := os.Getenv("C10_SCALE"); s != "" {
-		var a, b, c int
-		if n, _ := fmt.Sscanf(s, "%d,%d,%d", &a, &b, &c); n == 3 {
-			ngb, njoin, nmodel = a, b, c
+		var a, b, c, d int
+		if n, _ := fmt.Sscanf(s, "%d,%d,%d,%d", &a, &b, &c, &d); n >= 3 {
+			ngb, njoin, nmodel, nscale = a, b, c, d
 		}
 	}
 	npar := 4
@@ -173,6 +173,9 @@ func c10(o Opts) error {
 	if err := runAll("gb", ngb); err != nil {
 		return err
 	}
+	if err := runAll("scale", nscale); err != nil {
+		return err
+	}
 	if err := runAll("join", njoin); err != nil {
 		return err
 	}
@@ -184,7 +187,7 @@ func c10(o Opts) error {
 		crashes += p.crash
 	}
 	res.CountN("worker_crashes", crashes)
-	res.Rule = "group-by: generated records (keys of 10 profiles incl. numerically equal values of different types, nulls of several types, missing; 1-3 keys incl. computed ones; 1-4 aggregates of 11 kinds with where clauses) run through the real compiler and runtime under every permutation (<=4 rows; 5 in thorough) or a sample of shuffles, table limits 0(default),1,2,3,4-7, declared-sorted input (asc/desc, batch sizes 1/2/all) and partials-out|partials-in DAGs, each compared as a multiset with a naive evaluation written in the harness; join: 4 kinds x 9 declared-direction combinations x shuffles vs nested loop; non-trivial = more than one group / both matching and non-matching rows"
+	res.Rule = "group-by: generated records (keys of 10 profiles incl. numerically equal values of different types, nulls of several types, missing; 1-3 keys incl. computed ones; 1-4 aggregates of 11 kinds with where clauses) run through the real compiler and runtime under every permutation (<=4 rows; 5 in thorough) or a sample of shuffles, table limits 0(default),1,2,3,4-7, declared-sorted input (asc/desc, batch sizes 1/2/all) and partials-out|partials-in DAGs, each compared as a multiset with a naive evaluation written in the harness; the same at scale (150-1000, thorough up to 3500, distinct keys, limits forcing 3-12 spills, many output batches) with consumers that hold each output batch across the next Pull (a batch must keep the content it had on arrival) or are slow; join: 4 kinds x 9 declared-direction combinations x shuffles vs nested loop; non-trivial = more than one group / both matching and non-matching rows"
 	// Coq correspondence file
 	var sb strings.Builder
 	sb.WriteString("From ZV Require Import Base.Prelude Model.Agg Model.AggCases Model.Join Model.JoinCases.\n")
@@ -204,6 +207,13 @@ func crashReplay(kind string, seed uint64, idx, vi int, tier string) any {
 	case "gb":
 		c := genGBCase(seed, idx, tier)
 		vs := c.variants(seed, tier)
+		if vi < len(vs) {
+			v := vs[vi]
+			return map[string]any{"query": c.query(v.Limit), "input": rowsZ(permute(c.Rows, v.Perm)), "variant": v.String()}
+		}
+	case "scale":
+		c := genScaleCase(seed, idx, tier)
+		vs := scaleVariants(c, seed, tier)
 		if vi < len(vs) {
 			v := vs[vi]
 			return map[string]any{"query": c.query(v.Limit), "input": rowsZ(permute(c.Rows, v.Perm)), "variant": v.String()}
